@@ -93,6 +93,20 @@ def single(m, cont="Box", ctx="arc", form="obj", extra=()):
     raise ValueError(form)
 
 
+def needs_filler(m):
+    """True when the header would lack a single-trait object over Box + CArc (so no CBox_c_void / CArc_c_void / CGlueTraitObj in it)."""
+    return not any(i["kind"] == "obj" and i["cont"] == "Box" and i["ctx"] == "arc" for i in m["instances"])
+
+
+def with_filler(m):
+    """Add an unrelated trait object over Box + CArc. Several tool defects are triggered by headers that lack such an object
+    (helpers emitted for absent types); the filler variant lets the remaining oracle clauses run on those shapes too."""
+    m = copy.deepcopy(m)
+    m["traits"] = m["traits"] + [trait("Filler", [meth("filler_ping", "ref", [], "void")])]
+    m["instances"] = [obj("Filler", "Box", "arc")] + m["instances"]
+    return m
+
+
 def shape(case):
     """Short stable description used in signatures/notes (no enumeration indices)."""
     m = case["model"]
@@ -176,6 +190,16 @@ def c17_quick_models():
     return out
 
 
+def c17_slice_models():
+    """c17_quick_models() plus, for every model without a Box+CArc trait object, the same model with the filler object."""
+    out = []
+    for label, m in c17_quick_models():
+        out.append((label, m))
+        if needs_filler(m):
+            out.append((label + "+filler", with_filler(m)))
+    return out
+
+
 def c17_quick_configs():
     """each key alone, the matching pair, everything."""
     return [
@@ -202,14 +226,14 @@ def config_model():
 def c17_cases(tier):
     """-> list of (section, label, case)"""
     cases = []
-    for label, m in c17_quick_models():
+    for label, m in c17_slice_models():
         for lang in ("c", "cpp"):
             if lang == "cpp" and label == "hdr:cpp_compat":
                 continue
-            cases.append(("slice", label, {"model": m, "lang": lang, "config": None}))
+            cases.append(("slice", label, {"model": m, "lang": lang, "config": None, "label": label}))
     for cfg in (c17_quick_configs() if tier == "quick" else all_configs()[1:]):
         for lang in ("c", "cpp"):
-            cases.append(("config", "config", {"model": config_model(), "lang": lang, "config": cfg}))
+            cases.append(("config", "config", {"model": config_model(), "lang": lang, "config": cfg, "label": "config"}))
     if tier == "quick":
         return cases
     # thorough: the full product recv x ret x arglist, packed 5 entries per vtable, x container x context x form
@@ -219,7 +243,10 @@ def c17_cases(tier):
         ms = [meth("m%d_%s" % (j, r), r, al, t) for j, (r, t, al) in enumerate(pack)]
         for c, x, form in itertools.product(CONTS, CTXS, ("obj", "gmand", "gopt")):
             for lang in ("c", "cpp"):
-                cases.append(("signatures", "sig", {"model": single(ms, c, x, form), "lang": lang, "config": None}))
+                m = single(ms, c, x, form)
+                if needs_filler(m):
+                    m = with_filler(m)
+                cases.append(("signatures", "sig", {"model": m, "lang": lang, "config": None, "label": "sig"}))
     # thorough: structure product traits(1..4) x groups(0..2) x clash x second variant x config subset
     tr_plain = [trait(n, [meth(n.lower() + "_get", "ref", ["u64"], "u64"), meth(n.lower() + "_take", "own", [], "u64")]) for n in TRAIT_NAMES]
     tr_clash = [trait(n, [meth("get", "ref", ["u64"], "u64"), meth(n.lower() + "_take", "own", [], "u64")]) for n in TRAIT_NAMES]
@@ -237,7 +264,7 @@ def c17_cases(tier):
         if second:
             inst += [obj(names[0], "Mut", "none")] + [grp(g["name"], "Ref", "none") for g in groups]
         for lang in ("c", "cpp"):
-            cases.append(("structure", "structure", {"model": model(trs, groups, inst), "lang": lang, "config": cfg}))
+            cases.append(("structure", "structure", {"model": model(trs, groups, inst), "lang": lang, "config": cfg, "label": "structure"}))
     return cases
 
 
@@ -278,11 +305,11 @@ def c18_cases(tier):
     cases = []
 
     def add(section, label, m, lang, cfg=None, layout="output_last"):
-        cases.append((section, label, {"model": m, "lang": lang, "config": cfg, "layout": layout}))
+        cases.append((section, label, {"model": m, "lang": lang, "config": cfg, "layout": layout, "label": label}))
     langs = ("c", "cpp")
     quick = tier == "quick"
     # S1 the C17 one-factor slice: self-contained + reproducible
-    for label, m in c17_quick_models():
+    for label, m in c17_slice_models():
         for lang in langs:
             if lang == "cpp" and label == "hdr:cpp_compat":
                 continue
